@@ -1,0 +1,64 @@
+//go:build verif
+
+// Contracts for the VC generator in /verif (comment-only).
+
+package ojg
+
+//@ unit strings
+
+// A byte that the JSON string writer copies through unchanged.
+//@ pred JPlain(b, htmlSafe) = jMap[b] == 'o' || jMap[b] == '8' || (jMap[b] == 'h' && !htmlSafe)
+
+// Table lemmas (closed facts about the constants of the real code): a byte copied through is legal inside a JSON
+// string; a byte with a short escape gets the escape letter RFC 8259 assigns to it; everything else below 0x20 is
+// \u-escaped; the html-sensitive bytes are exactly < > &.
+//@ lemma JMapPlain(b int) [C04 C10]: 0 <= b && b < 256 && jMap[b] == 'o' ==> 0x20 <= b && b < 0x80 && b != '"' && b != '\\' && b != '<' && b != '>' && b != '&'
+//@ lemma JMapHTML(b int) [C04]: 0 <= b && b < 256 ==> (jMap[b] == 'h' <==> (b == '<' || b == '>' || b == '&'))
+//@ lemma JMapHigh(b int) [C04]: 0 <= b && b < 256 ==> (jMap[b] == '8' <==> b >= 0x80)
+//@ lemma JMapCtl(b int) [C04]: 0 <= b && b < 256 ==> (jMap[b] == '.' <==> ((b < 0x20 && b != 8 && b != 9 && b != 10 && b != 12 && b != 13) || b == 0x7f))
+//@ lemma JMapEsc(b int) [C04]: 0 <= b && b < 256 && jMap[b] != 'o' && jMap[b] != '8' && jMap[b] != 'h' && jMap[b] != '.' ==>
+//@     (b == 8 && jMap[b] == 'b') || (b == 9 && jMap[b] == 't') || (b == 10 && jMap[b] == 'n') || (b == 12 && jMap[b] == 'f')
+//@     || (b == 13 && jMap[b] == 'r') || (b == '"' && jMap[b] == '"') || (b == '\\' && jMap[b] == '\\')
+
+//@ func AppendJSONString
+//@   modifies heap(buf)
+//@   ensures [C04 C07 grow] len(result) >= old(len(buf)) + 2 + len(s) && (arrid(result) == old(arrid(buf)) || fresh(result))
+//@   loop 0
+//@     let n0 = len(buf)
+//@     let bytes0 = str($s)
+//@     invariant arrid(buf) != arrid($s) && ident(str($s), bytes0)
+//@     invariant 0 <= start && start <= len(s) && 0 <= skip && skip <= len(s) && start <= $k + 1 + 4 && $n == len(s)
+//@     invariant $k + 1 <= skip ==> start <= skip
+//@     invariant skip <= $k + 1 ==> start <= $k + 1
+//@     invariant [C04 plain] forall j: start <= j && j < len(s) && (j <= $k || j < skip) ==> JPlain(s[j], htmlSafe)
+//@     invariant [C04 grow] len(buf) >= n0 + start && (arrid(buf) == old(arrid(buf)) || fresh(buf))
+
+// ---------------------------------------------------------------------------
+// SEN strings. A byte the SEN writer may leave unquoted inside a bare token, and the condition on the first byte.
+//@ pred SBare(b, htmlSafe) = senMap[b] == 'o' || senMap[b] == '0' || senMap[b] == '8' || (senMap[b] == 'h' && !htmlSafe && b != '&')
+//@ pred SFirst(b, htmlSafe) = senMap[b] == 'o' || senMap[b] == '8' || (senMap[b] == 'h' && !htmlSafe && b != '&')
+
+// Table compatibility between the writer's table and the SEN parser's tables (constants of the real code): a byte
+// the writer may put first in a bare token starts a token in the parser, and every byte it may leave bare continues one.
+//@ lemma SenFirstStartsToken(b int) [C10]: 0 <= b && b < 256 && (senMap[b] == 'o' || senMap[b] == '8') && b != '+' && b != '-' ==> sen.valueMap[b] == 'j'
+//@ lemma SenFirstSign(b int) [C10]: (b == '+' || b == '-') && senMap[b] == 'o' ==> sen.valueMap[b] == 'j'
+//@ lemma SenFirstHTML(b int) [C10]: 0 <= b && b < 256 && senMap[b] == 'h' && b != '&' ==> sen.valueMap[b] == 'j'
+//@ lemma SenBareContinues(b int) [C10]: 0 <= b && b < 256 && (senMap[b] == 'o' || senMap[b] == '0' || senMap[b] == '8' || (senMap[b] == 'h' && b != '&')) ==> sen.tokenMap[b] == 'u'
+
+//@ func AppendSENString
+//@   modifies heap(buf)
+//@   ensures [C10 C07 grow] len(result) >= old(len(buf)) + len(s) && (arrid(result) == old(arrid(buf)) || fresh(result))
+//@   ensures [C10 bare] len(s) > 0 && len(result) == old(len(buf)) + len(s) ==> len(s) <= maxTokenLen && SFirst(s[0], htmlSafe) && (forall j: 0 <= j && j < len(s) ==> SBare(s[j], htmlSafe))
+//@   ensures [C10 reserved] len(s) > 0 && len(result) == old(len(buf)) + len(s) ==> s != "true" && s != "false" && s != "null"
+//@   loop 0
+//@     let n0 = len(buf)
+//@     let bytes0 = str($s)
+//@     invariant arrid(buf) != arrid($s) && ident(str($s), bytes0) && b0 == old(len(buf)) && n0 == b0 + 1 && len(s) > 0
+//@     invariant 0 <= start && start <= len(s) && 0 <= skip && skip <= len(s) && start <= $k + 1 + 4 && $n == len(s)
+//@     invariant $k + 1 <= skip ==> start <= skip
+//@     invariant skip <= $k + 1 ==> start <= $k + 1
+//@     invariant [C10 plain] forall j: start <= j && j < len(s) && (j <= $k || j < skip) ==> SBare(s[j], htmlSafe) || senMap[s[j]] == 'x' || (senMap[s[j]] == 'h' && !htmlSafe)
+//@     invariant [C10 grow] len(buf) >= n0 + start && (arrid(buf) == old(arrid(buf)) || fresh(buf))
+//@     invariant [C10 bare] !quote ==> start == 0 && len(buf) == n0 && len(s) <= maxTokenLen
+//@          && (senMap[s[0]] == 'o' || senMap[s[0]] == '8' || (senMap[s[0]] == 'h' && !htmlSafe)) && ($k >= 0 ==> SFirst(s[0], htmlSafe))
+//@     invariant [C10 bare] !quote ==> (forall j: 0 <= j && j < len(s) && (j <= $k || j < skip) ==> SBare(s[j], htmlSafe))
